@@ -25,7 +25,8 @@ variable (F : Fmt)
 def lt (x y : Nat) : Bool := F.lt x y
 def eq (x y : Nat) : Bool := !F.isNaN x && !F.isNaN y && decide (F.key x = F.key y)
 def neg (x : Nat) : Nat := F.withSign (!F.sign x) (F.abs x)
-/-- NaN results are canonicalised (payload and sign of a NaN result are not observed) -/
+/-- NaN results are canonicalised (the payload of a NaN result is never observed; its sign bit is observed for
+    fabs / abs / copysign only, which do not go through `canon`) -/
 def canon (x : Nat) : Nat := if F.isNaN x then F.qnan else x
 
 /-! ### constant-evaluated rounding: gcem floor / ceil / trunc / round, `rint_fallback`, `lrint_fallback`
@@ -55,11 +56,10 @@ def signbitFallback (x : Nat) : Bool := (x / F.signBit) % 2 == 1
 def copysignFallback (x y : Nat) : Nat :=
   if signbitFallback F x != signbitFallback F y then neg F x else x
 
-/-- _math/abs.hpp `abs_impl`: `n > 0 ? n : n == 0 ? T(0) : n * -1` (a NaN fails both comparisons) -/
-def absImpl (x : Nat) : Nat :=
-  if !F.isNaN x && decide (0 < F.key x) then x
-  else if !F.isNaN x && decide (F.key x = 0) then 0
-  else neg F x
+/-- _math/abs.hpp `abs_impl` for a floating-point `T` (d9d7c3a): `etl::signbit(n) ? -n : n` on both paths — the sign
+    bit is read (`__builtin_signbit`, usable in constant expressions) and, when set, flipped by the unary minus.
+    No comparison is involved, so -0.0 and NaNs of either sign lose their sign bit as well. -/
+def absImpl (x : Nat) : Nat := if F.signbit x then neg F x else x
 
 /-- nextafter.hpp `detail::nextafter` -/
 def nextafter (x y : Nat) : Nat :=
@@ -80,6 +80,25 @@ def fdim (x y : Nat) : Nat :=
   if F.isNaN x || F.isNaN y then F.qnan else if lt F y x then fsubPos F x y else 0
 
 def isfinite (x : Nat) : Bool := !F.isNaN x && !F.isInf x
+
+/-! ### fmod / remainder in constant evaluation (67c4687, f0dd916)
+
+`detail::fmod` / `detail::remainder`, branch `is_constant_evaluated()`: the ladder
+`x != x or y != y or x == inf or x == -inf or y == T(0)  ->  quiet NaN`, `y == inf or y == -inf  ->  x`
+(the arguments for which GCC does not fold the builtin), then `__builtin_fmod` / `__builtin_remainder`, which GCC
+folds exactly for a finite `x` and a finite non-zero `y`.  The comparisons are the C operators on patterns (`eq`);
+the builtin is assumed to return what C specifies (DESIGN §3), i.e. the Spec function. -/
+/-- the pattern of `-inf` -/
+def negInf : Nat := F.signBit + F.inf
+/-- the guard of the first rung: `x != x or y != y or x == inf or x == -inf or y == T(0)` -/
+def divInvalid (x y : Nat) : Bool :=
+  F.isNaN x || F.isNaN y || eq F x F.inf || eq F x (negInf F) || eq F y 0
+/-- the guard of the second rung: `y == inf or y == -inf` -/
+def divisorInf (y : Nat) : Bool := eq F y F.inf || eq F y (negInf F)
+def fmodCt (x y : Nat) : Nat :=
+  if divInvalid F x y then F.qnan else if divisorInf F y then x else F.fmod x y          -- __builtin_fmod
+def remainderCt (x y : Nat) : Nat :=
+  if divInvalid F x y then F.qnan else if divisorInf F y then x else F.remainder x y     -- __builtin_remainder
 
 /-! ### dispatch: which algorithm each path runs -/
 def floor : Path → Nat → Except Err Nat
@@ -106,5 +125,11 @@ def signbit : Path → Nat → Bool
 def copysign : Path → Nat → Nat → Nat
   | .rt, x, y => F.copysign x y      -- __builtin_copysign
   | .ct, x, y => copysignFallback F x y
+def fmod : Path → Nat → Nat → Nat
+  | .rt, x, y => F.fmod x y          -- __builtin_fmodf / __builtin_fmod
+  | .ct, x, y => fmodCt F x y
+def remainder : Path → Nat → Nat → Nat
+  | .rt, x, y => F.remainder x y     -- __builtin_remainderf / __builtin_remainder
+  | .ct, x, y => remainderCt F x y
 
 end Tetl.C16.Model
